@@ -401,6 +401,34 @@ def main():
         futs = {k: ex.submit(run_group, exe, os.path.join(work, k), v) for k, v in groups.items()}
         res = {k: f.result() for k, f in futs.items()}
 
+    # thorough: the same cases once more on an AddressSanitizer/UBSan build (asserts on); it must
+    # print exactly what the shipped flavour printed and no sanitizer report
+    if thorough and not chk.replay:
+        try:
+            lib_a = vf.build_libuv(chk.scratch, "asan")
+            exe_a = vf.cc_harness(chk.scratch, "c19_getters_asan", ["c19_getters.c"], lib=lib_a,
+                                  flavour="asan", wraps=WRAPS)
+            with concurrent.futures.ThreadPoolExecutor(len(groups) or 1) as ex:
+                futs = {k: ex.submit(run_group, exe_a, os.path.join(work, k), v) for k, v in groups.items()}
+                res_a = {k: f.result() for k, f in futs.items()}
+            nas = 0
+            for k in groups:
+                oa, ea = res_a[k]
+                on = res[k][0]
+                if "Sanitizer" in ea or "runtime error" in ea:
+                    chk.violation("%s: sanitizer report on the asan flavour" % k,
+                                  {"kind": "asan", "stderr": ea[-3000:]}, found_input=False)
+                for ln, x, y in zip(groups[k], on, oa):
+                    nas += 1
+                    if x != y and k not in ("title", "exepath") and not x.startswith("SKIP"):
+                        chk.violation("%s: asan flavour and shipped flavour differ" % k,
+                                      {"kind": "asan", "case": ln, "ndebug": x[:2000], "asan": y[:2000]},
+                                      found_input=False)
+                        break
+            chk.cov["asan_cases"] = nas
+        except vf.BuildError as e:
+            chk.assumptions.append("asan flavour not available: %s" % str(e)[:200])
+
     defects = Defects()
     monitor = make_monitor(defects)
     ncalls, skipped = 0, {}
